@@ -64,3 +64,13 @@ def check_table(res):
                          "CipherTable/MacTable and harness/c25/ref.go first): %s" % "; ".join(mism))
     if "table_mismatch" in (res.get("extra") or {}):
         del res["extra"]["table_mismatch"]
+
+
+def unknown_violations(pid, res):
+    """Violations of a harness result whose signature is not an open known finding of property pid."""
+    import json, os
+    known = set()
+    kf = os.path.join(vlib.VERIF, "known_findings.json")
+    if os.path.exists(kf):
+        known = {k.get("signature") for k in json.load(open(kf)) if k.get("property") == pid and k.get("status") == "open"}
+    return [v for v in (res.get("violations") or []) if v.get("sig") not in known]
